@@ -109,8 +109,51 @@ def run(ctx):
         ctx.count("verbose-refused", 1)
         if not ok:
             ctx.violation(f"btcdeb -v stdin={mode[0]} stdout={mode[1]}", {"why": "--verbose must be refused in non-interactive mode", "rc": rc, "stderr": err[-300:]})
+    # ---- sessions with a transaction (--tx/--txin): signature checks run the digest code, whose debug log must not reach stdout
+    from . import spendgen as S
+    from . import pyref as P
+    tj, tl = [], []
+    pairs = []
+    d = os.path.join(os.environ.get("VERIF_REPO", "/repo"), "doc", "txs")
+    if os.path.isdir(d):
+        for n in sorted(os.listdir(d)):
+            if n.endswith("-tx") and os.path.exists(os.path.join(d, n[:-3] + "-in")):
+                pairs.append((open(os.path.join(d, n)).read().strip(), open(os.path.join(d, n[:-3] + "-in")).read().strip()))
+    for kind in S.KINDS:
+        for rep in range(1 if quick else 6):
+            sp = S.build(rnd, kind)
+            pairs.append((P.ser_tx(sp.tx).hex(), P.ser_tx(sp.txin).hex()))
+    for (txh, inh) in pairs:
+        for mode in MODES:
+            for opt in (OPTS if not quick else [OPTS[0], OPTS[3], OPTS[5]]):
+                env = rnd.choice(ENVS)
+                if mode[0] == "tty" and "DEBUG_SET_PIPE_IN" in env:
+                    env = {}
+                argv = list(opt) + ["--tx=" + txh, "--txin=" + inh]
+                tj.append((argv, mode, "\n" if mode[2] == "stdin" else "", env))
+                tl.append("SPEND %s %s -1 %d 0 - 0" % (txh.encode().hex(), inh.encode().hex(), R.STD))
+    def exp_spend(l):
+        if l.startswith("REFUSED"):
+            return "exit=1 out=- err=refused"
+        m = re.search(r"end=(\S+) final=(\S*)", l)
+        if m.group(1) == "OK":
+            return "exit=0 out=" + ";".join(m.group(2).split(",") if m.group(2) else []) + " err=-"
+        if m.group(1) == "EXC":
+            return "exit=1 out=- err=1"
+        return "exit=1 out=- err=" + m.group(1).split(":")[1]
+    tmodel = [exp_spend(l) for l in ctx.driver_sharded(tl, "model")]
+    with ThreadPoolExecutor(max_workers=16) as ex:
+        timpl = list(ex.map(one, tj))
+    def spend_classify(x):
+        # a refusal during set-up has its own diagnostics
+        return x
+    ttag = [f"{l[:60]}... ## argv-options={j[0][:-2]} stdin={j[1][0]} stdout={j[1][1]} env={j[3]}" for l, j in zip(tl, tj)]
+    # set-up refusals print their own messages (classify maps unknown ones to err=?...): compare exit status and stdout only there
+    def obs(x):
+        return re.sub(r" err=(refused|\?.*)$", " err=refused", x)
+    ctx.compare("noninteractive-tx", ttag, timpl, tmodel, None, observable=obs, nontrivial=lambda c, i: True)
     h = {}
-    for i in impl:
+    for i in impl + timpl:
         k = i.split(" ")[0] + " " + i.split(" ")[-1][:12]
         h[k] = h.get(k, 0) + 1
     ctx.notes.append({"outcomes": h})
